@@ -230,6 +230,7 @@ func c10Session(c *fw.Ctx, r *rand.Rand, idx int) {
 				s.shutdown(true)
 				return
 			}
+			cur, next = first, first
 			flipped, ok := flipSomeColours(r, base)
 			if !ok {
 				continue
